@@ -1,0 +1,27 @@
+//go:build verif
+// +build verif
+
+package agent
+
+// Verification hook (build tag "verif"). Add-only; not compiled into normal builds.
+// Requested by agentb for C19 / C18: drives the gospy branch of ProfileSession (one trie per profile type, spies[i]
+// feeding profileTypes[i], cumulative types) with fake spies, which spy.RegisterSpy cannot reach because Start()
+// calls gospy.Start directly for types.GoSpy.
+
+import (
+	"github.com/pyroscope-io/pyroscope/pkg/agent/spy"
+	"github.com/pyroscope-io/pyroscope/pkg/agent/types"
+)
+
+// VerifNewSessionWithSpies builds the session exactly as NewSession does for SpyName == types.GoSpy and then does what
+// Start() does, except that the given spies are used instead of gospy.Start(profileType, ...): spies[i] belongs to
+// c.ProfilingTypes[i] (len(spies) must equal len(c.ProfilingTypes)). The sampling goroutine is running on return.
+func VerifNewSessionWithSpies(c *SessionConfig, logger Logger, spies []spy.Spy) *ProfileSession {
+	cc := *c
+	cc.SpyName = types.GoSpy
+	ps := NewSession(&cc, logger)
+	ps.reset()
+	ps.spies = append(ps.spies, spies...)
+	go ps.takeSnapshots()
+	return ps
+}
